@@ -9,6 +9,17 @@ import "os"
 // VerifVfsHook is called before every mutating file system call of the store.
 var VerifVfsHook func(op string, paths []string, data []byte)
 
+// VerifVfsFault is asked before every mutating file system call of the store (after VerifVfsHook): a non-nil error is
+// returned to the caller instead of performing the call (an injected storage fault).
+var VerifVfsFault func(op string, paths []string) error
+
+func vfsFault(op string, paths ...string) error {
+	if h := VerifVfsFault; h != nil {
+		return h(op, paths)
+	}
+	return nil
+}
+
 func vfsHook(op string, data []byte, paths ...string) {
 	if h := VerifVfsHook; h != nil {
 		h(op, paths, data)
@@ -17,25 +28,40 @@ func vfsHook(op string, data []byte, paths ...string) {
 
 func vfsMkdirAll(path string, perm os.FileMode) error {
 	vfsHook("MkdirAll", nil, path)
+	if err := vfsFault("MkdirAll", path); err != nil {
+		return err
+	}
 	return os.MkdirAll(path, perm)
 }
 
 func vfsWriteFile(name string, data []byte, perm os.FileMode) error {
 	vfsHook("WriteFile", data, name)
+	if err := vfsFault("WriteFile", name); err != nil {
+		return err
+	}
 	return os.WriteFile(name, data, perm)
 }
 
 func vfsCreateTemp(dir, pattern string) (*os.File, error) {
 	vfsHook("CreateTemp", nil, dir)
+	if err := vfsFault("CreateTemp", dir); err != nil {
+		return nil, err
+	}
 	return os.CreateTemp(dir, pattern)
 }
 
 func vfsRename(oldpath, newpath string) error {
 	vfsHook("Rename", nil, oldpath, newpath)
+	if err := vfsFault("Rename", oldpath, newpath); err != nil {
+		return err
+	}
 	return os.Rename(oldpath, newpath)
 }
 
 func vfsRemove(name string) error {
 	vfsHook("Remove", nil, name)
+	if err := vfsFault("Remove", name); err != nil {
+		return err
+	}
 	return os.Remove(name)
 }
